@@ -3,7 +3,7 @@ import DarkluaModel.Shared.VisitorSound.Heap.HSoundStmt
 # Compatibility lemmas: the statement constructors
 -/
 namespace DarkluaModel.Sem.Heap
-variable {Q : QRel} {cx : Cx} {D : List String}
+variable {Q : QRel} {cx : Cx} {D : List DName}
 
 theorem RRel.loopEnd {N : NumOps} {β β0 : CellRel} {env env' : Env N} {r : Option (List (Val N))} {σ σ' : State N}
     (he : EnvOK cx β0 D env env') (hle : β0.le β) (h : SRel Q cx β σ σ') :
@@ -35,7 +35,7 @@ theorem oldVal_rel {N : NumOps} {call : CallFn N} {ρ : ExtOracle N} {k : Nat} {
         | .slot t key => indexVal call ρ k t key s') := by
   intro hok
   cases tg
-  · simp only [h.lookupVar he.2 hok]; exact RRel.okEq h
+  · simp only [h.lookupVar he.loc.rel hok.1]; exact RRel.okEq h
   · exact indexVal_param hc _ _ _ h
 
 theorem SoundS.cassign {op t t' v v'} (iht : SoundT Q cx D t t') (ihv : SoundE Q cx D v v') :
@@ -50,7 +50,7 @@ theorem SoundS.cassign {op t t' v v'} (iht : SoundT Q cx D t t') (ihv : SoundE Q
   refine RRel.bindEq (ihv N call ρ k env env' _ _ _ hc h (he1.mono h2)) fun β3 h3 _ _ _ h => ?_
   refine RRel.bindEq (binopVal_param hc _ _ _ _ h) fun β4 h4 _ _ _ h => ?_
   have he4 := ((he1.mono h2).mono h3).mono h4
-  refine RRel.bindEq (storeTarget_param hc _ he4.2 _ hok _ h) fun β5 h5 _ _ _ h => ?_
+  refine RRel.bindEq (storeTarget_param hc _ he4.loc _ hok _ h) fun β5 h5 _ _ _ h => ?_
   exact RRel.ok (A := ACtlS cx D) (he4.mono h5) h
 
 theorem SoundS.callStmt {c c'} (ih : SoundE Q cx D c c') : SoundS Q cx D (.callStmt c) (.callStmt c') := by
@@ -74,7 +74,7 @@ def addSelf (m : Option String) (f : FnBody) : FnBody :=
 theorem function_tail {N : NumOps} {call : CallFn N} {ρ : ExtOracle N} {k : Nat} {env env' : Env N} {β : CellRel}
     (hc : CallOK Q cx call) (he : EnvOK cx β D env env') {σ σ' : State N} (hs : SRel Q cx β σ σ')
     (name : List String) (m : Option String) (F F' : FnBody) (hF : Q D F F') :
-    (∀ r, name.head? = some r → r ∉ D) →
+    (∀ r, name.head? = some r → DName.ref r ∉ D ∧ DName.wat r ∉ D) →
     RRel Q cx β (ACtlS cx D)
       (match name, m with
         | [n], none => (Res.ok (Ctl.next env) (assignVar env n (.fn (σ.allocClosure ⟨F, env.locals, []⟩).1)
@@ -97,17 +97,17 @@ theorem function_tail {N : NumOps} {call : CallFn N} {ρ : ExtOracle N} {k : Nat
               fun _ σ3 => .ok (.next env') σ3
         | [], _ => errS "function statement without a name" (σ'.allocClosure ⟨F', env'.locals, []⟩).2) := by
   intro hroot
-  have ha := hs.allocClosure (c := ⟨F, env.locals, []⟩) (c' := ⟨F', env'.locals, []⟩) ⟨rfl, D, hF, he.2⟩
+  have ha := hs.allocClosure (c := ⟨F, env.locals, []⟩) (c' := ⟨F', env'.locals, []⟩) ⟨rfl, D, hF, he.loc⟩
   rw [ha.1]
   split
-  · exact RRel.ok (A := ACtlS cx D) he (ha.2.assignVar he.2 (hroot _ rfl) _)
-  · rw [ha.2.lookupVar he.2 (hroot _ rfl)]
+  · exact RRel.ok (A := ACtlS cx D) he (ha.2.assignVar he.loc (hroot _ rfl).1 (hroot _ rfl).2 _)
+  · rw [ha.2.lookupVar he.loc.rel (hroot _ rfl).1]
     exact RRel.bindEq (walkFields_param hc _ _ _ ha.2) fun β1 h1 _ _ _ h =>
       RRel.bindEq (setIndexVal_param hc _ _ _ _ h) fun β2 h2 _ _ _ h =>
         RRel.ok (A := ACtlS cx D) ((he.mono h1).mono h2) h
   · exact RRel.errS ha.2
 
-theorem SoundS.function {name m f f'} (hroot : ∀ r, name.head? = some r → r ∉ D)
+theorem SoundS.function {name m f f'} (hroot : ∀ r, name.head? = some r → DName.ref r ∉ D ∧ DName.wat r ∉ D)
     (hf : Q D (addSelf m f) (addSelf m f')) : SoundS Q cx D (.function name m f) (.function name m f') := by
   intro N call ρ k env env' σ σ' β hc hs he
   cases m with
@@ -117,7 +117,8 @@ theorem SoundS.function {name m f f'} (hroot : ∀ r, name.head? = some r → r 
     simp only [execS]
     exact function_tail hc he hs name (some mm) _ _ hf hroot
 
-theorem SoundS.gfor {ns ns' vs vs' b b' D'} (hn : ns.map TName.name = ns'.map TName.name) (ihv : SoundEs Q cx D vs vs')
+theorem SoundS.gfor {ns ns' vs vs' b b' D'} (hn : ns.map TName.name = ns'.map TName.name)
+    (hw : ∀ n ∈ ns'.map TName.name, DName.wat n ∉ D) (ihv : SoundEs Q cx D vs vs')
     (ihb : SoundB Q cx D b b' D') : SoundS Q cx D (.gfor ns vs b) (.gfor ns' vs' b') := by
   intro N call ρ k env env' σ σ' β hc hs he
   simp only [execS, hn]
@@ -127,16 +128,16 @@ theorem SoundS.gfor {ns ns' vs vs' b b' D'} (hn : ns.map TName.name = ns'.map TN
   apply gforLoop_rel
   · intro β2 h2 c s s' h; exact callVal_param hc _ _ _ h
   · intro β2 h2 rs s s' h
-    obtain ⟨β3, h3, hs3, he3⟩ := h.bindLocals (ns'.map TName.name) rs (he1.mono h2).2
+    obtain ⟨β3, h3, hs3, he3⟩ := h.bindLocals (ns'.map TName.name) hw rs (he1.mono h2).loc
     refine RRel.mono h3 ?_
     have he4 : EnvOK cx β3 D { env with locals := (bindLocals (ns'.map TName.name) rs env.locals s).1 }
-        { env' with locals := (bindLocals (ns'.map TName.name) rs env'.locals s').1 } := ⟨he.1, he3⟩
+        { env' with locals := (bindLocals (ns'.map TName.name) rs env'.locals s').1 } := ⟨he.va, he3⟩
     exact (ihb.2 N call ρ k _ _ _ _ _ hc hs3 he4).mapA fun _ _ _ _ ha => ha.shape
   · exact h
 
 theorem nfor_tail {N : NumOps} {call : CallFn N} {ρ : ExtOracle N} {k : Nat} {env env' : Env N} {β : CellRel}
     (hc : CallOK Q cx call) (he : EnvOK cx β D env env')
-    {n n' : TName} {body body' : Block} {D' : List String} (hn : n.name = n'.name) (ihbody : SoundB Q cx D body body' D')
+    {n n' : TName} {body body' : Block} {D' : List DName} (hn : n.name = n'.name) (hw : DName.wat n'.name ∉ D) (ihbody : SoundB Q cx D body body' D')
     (a b c : List (Val N)) {σ σ' : State N} (h : SRel Q cx β σ σ') :
     RRel Q cx β (ACtlS cx D)
       (match toNumber? (first a), toNumber? (first b), toNumber? (first c) with
@@ -169,12 +170,13 @@ theorem nfor_tail {N : NumOps} {call : CallFn N} {ρ : ExtOracle N} {k : Nat} {e
       have he3 : EnvOK cx (extBoth β2 s s') D
           { env with locals := (n'.name, (s.allocCell (.num i)).1) :: env.locals }
           { env' with locals := (n'.name, (s'.allocCell (.num i)).1) :: env'.locals } :=
-        ⟨he.1, ((he.mono h2).2.mono le_extBoth).cons _ extBoth_new⟩
+        ⟨he.va, ((he.mono h2).loc.mono le_extBoth).cons _ hw extBoth_new⟩
       exact (ihbody.2 N call ρ k _ _ _ _ _ hc ha he3).mapA fun _ _ _ _ ha => ha.shape
     · exact h
   · exact RRel.errS h
 
-theorem SoundS.nforNone {n n' a a' b b' body body' D'} (hn : TName.name n = TName.name n') (iha : SoundE Q cx D a a')
+theorem SoundS.nforNone {n n' a a' b b' body body' D'} (hn : TName.name n = TName.name n')
+    (hw : DName.wat n'.name ∉ D) (iha : SoundE Q cx D a a')
     (ihb : SoundE Q cx D b b') (ihbody : SoundB Q cx D body body' D') :
     SoundS Q cx D (.nfor n a b none body) (.nfor n' a' b' none body') := by
   intro N call ρ k env env' σ σ' β hc hs he
@@ -182,17 +184,17 @@ theorem SoundS.nforNone {n n' a a' b b' body body' D'} (hn : TName.name n = TNam
   exact RRel.bindEq (iha N call ρ k env env' σ σ' β hc hs he) fun β1 h1 _ _ _ h =>
     RRel.bindEq (ihb N call ρ k env env' _ _ _ hc h (he.mono h1)) fun β2 h2 _ _ _ h =>
       RRel.bindEq (RRel.okEq h) fun β3 h3 _ _ _ h =>
-        nfor_tail hc (((he.mono h1).mono h2).mono h3) hn ihbody _ _ _ h
+        nfor_tail hc (((he.mono h1).mono h2).mono h3) hn hw ihbody _ _ _ h
 
 theorem SoundS.nforSome {n n' a a' b b' st st' body body' D'} (hn : TName.name n = TName.name n')
-    (iha : SoundE Q cx D a a') (ihb : SoundE Q cx D b b') (ihst : SoundE Q cx D st st') (ihbody : SoundB Q cx D body body' D') :
+    (hw : DName.wat n'.name ∉ D) (iha : SoundE Q cx D a a') (ihb : SoundE Q cx D b b') (ihst : SoundE Q cx D st st') (ihbody : SoundB Q cx D body body' D') :
     SoundS Q cx D (.nfor n a b (some st) body) (.nfor n' a' b' (some st') body') := by
   intro N call ρ k env env' σ σ' β hc hs he
   simp only [execS]
   exact RRel.bindEq (iha N call ρ k env env' σ σ' β hc hs he) fun β1 h1 _ _ _ h =>
     RRel.bindEq (ihb N call ρ k env env' _ _ _ hc h (he.mono h1)) fun β2 h2 _ _ _ h =>
       RRel.bindEq (ihst N call ρ k env env' _ _ _ hc h ((he.mono h1).mono h2)) fun β3 h3 _ _ _ h =>
-        nfor_tail hc (((he.mono h1).mono h2).mono h3) hn ihbody _ _ _ h
+        nfor_tail hc (((he.mono h1).mono h2).mono h3) hn hw ihbody _ _ _ h
 
 theorem SoundS.ifsNone {brs brs'} (ih : SoundBranches Q cx D brs brs') : SoundS Q cx D (.ifs brs none) (.ifs brs' none) := by
   intro N call ρ k env env' σ σ' β hc hs he
@@ -213,24 +215,24 @@ theorem SoundS.ifsSome {brs brs' b b' D'} (ih : SoundBranches Q cx D brs brs') (
   · exact RRel.ok (A := ACtlS cx D) hr h
 
 theorem SoundS.localAssign {kind kind' ns ns' vs vs'} (hn : ns.map TName.name = ns'.map TName.name)
-    (ihv : SoundEs Q cx D vs vs') : SoundS Q cx D (.localAssign kind ns vs) (.localAssign kind' ns' vs') := by
+    (hw : ∀ n ∈ ns'.map TName.name, DName.wat n ∉ D) (ihv : SoundEs Q cx D vs vs') : SoundS Q cx D (.localAssign kind ns vs) (.localAssign kind' ns' vs') := by
   intro N call ρ k env env' σ σ' β hc hs he
   simp only [execS, hn]
   refine RRel.bindEq (ihv N call ρ k env env' σ σ' β hc hs he) fun β1 h1 vals s s' h => ?_
-  obtain ⟨β2, h2, hs2, he2⟩ := h.bindLocals (ns'.map TName.name) vals (he.mono h1).2
-  exact RRel.mono h2 (RRel.ok (A := ACtlS cx D) ⟨he.1, he2⟩ hs2)
+  obtain ⟨β2, h2, hs2, he2⟩ := h.bindLocals (ns'.map TName.name) hw vals (he.mono h1).loc
+  exact RRel.mono h2 (RRel.ok (A := ACtlS cx D) ⟨he.va, he2⟩ hs2)
 
-theorem SoundS.localFn {kind kind' name f f'} (hf : Q D f f') :
+theorem SoundS.localFn {kind kind' name f f'} (hw : DName.wat name ∉ D) (hf : Q D f f') :
     SoundS Q cx D (.localFn kind name f) (.localFn kind' name f') := by
   intro N call ρ k env env' σ σ' β hc hs he
   simp only [execS]
   have h1 := hs.allocBoth .nil
-  have he1 : EnvRel (extBoth β σ σ') D ((name, (σ.allocCell .nil).1) :: env.locals)
-      ((name, (σ'.allocCell .nil).1) :: env'.locals) := (he.2.mono le_extBoth).cons _ extBoth_new
+  have he1 : LocOK cx (extBoth β σ σ') D ((name, (σ.allocCell .nil).1) :: env.locals)
+      ((name, (σ'.allocCell .nil).1) :: env'.locals) := (he.loc.mono le_extBoth).cons _ hw extBoth_new
   have h2 := h1.allocClosure (c := ⟨f, (name, (σ.allocCell .nil).1) :: env.locals, []⟩)
     (c' := ⟨f', (name, (σ'.allocCell .nil).1) :: env'.locals, []⟩) ⟨rfl, D, hf, he1⟩
   rw [h2.1]
-  refine RRel.mono le_extBoth (RRel.ok (A := ACtlS cx D) ⟨he.1, he1⟩ ?_)
+  refine RRel.mono le_extBoth (RRel.ok (A := ACtlS cx D) ⟨he.va, he1⟩ ?_)
   exact h2.2.setCell extBoth_new _
 
 /-- a `repeat` iteration from its body (as an open block) and its condition -/
